@@ -25,7 +25,7 @@ claimed = {
  "C10": ("E2 repl/pushpull", "exploration", "5 C10", "sequential two-replica simulation with lossy gossip followed by real LocalState/MergeRemoteState exchange; per-replica LWW reference model",
          "Interleaved histories on A and B with each gossip batch delivered or lost, then snapshot A->B, B->A, fresh-B or both; the merged replica must equal the LWW merge of the two reference models (additions and removals), and both directions must yield identical listings.",
          "Clocks synchronised (skew is C08's subject)."),
- "C11": ("E1 simbroker/lifecycle + displace", "exploration", "5 C11", "deterministic whole-broker simulation with fake time: session scripts with idle periods relative to the keep-alive and one termination cause (DISCONNECT, cut, close, link dying under a broker write, silence, protocol error, node stop; second variant: displacement by a newer session with the same client id), gossip faults, settle (listings judged before and after the anti-entropy exchange), then traffic towards every session",
+ "C11": ("E1 simbroker/lifecycle + displace + E1c sched", "exploration", "5 C11", "deterministic whole-broker simulation with fake time: session scripts with idle periods relative to the keep-alive and one termination cause (DISCONNECT, cut, close, link dying under a broker write, silence, protocol error, node stop; second variant: displacement by a newer session with the same client id), gossip faults, settle (listings judged before and after the anti-entropy exchange), then traffic towards every session",
          "No spurious end while the client stays within 0.9x keep-alive; on end the broker closes the connection within a cause-specific bound, no node lists the session or its subscriptions after the settle, nothing more is written to it, and at quiescence every listed subscription belongs to a listed, locally registered session.",
          "The allowance is taken as 2x keep-alive (+5 s bound); keep-alive 0 not generated; one open known finding (gossip delivered after the leave notification)."),
  "C19": ("E2 tries + E3 lockstep (-race)", "exploration", "5 C19", "sequential simulation of topics.Store and subscriptions.Tree against a Go map keyed by full topic strings, with dump/load rebuild as the restart-like event, plus PRNG-scheduled concurrent tasks under the race detector with a porcupine map model (lockstep engine)",
@@ -54,7 +54,7 @@ m = {
  "engines": [
   {"name": "E1 simbroker", "path": "/verif/h (world_test.go, simconn_test.go, mqttc_test.go, e1_*_test.go)", "serves_properties": ["C01","C02","C03","C05","C07","C11","C12","C13","C14","C16","C17","C18"], "kind_free_text": "whole wasp broker(s) in one testing/synctest bubble: fake clock, simulated client connections, gossip, RPC, fault injection, seeded scenarios, ddmin, JSON replay"},
   {"name": "E2 simcomp", "path": "/verif/h (repl_test.go, comp_test.go, logcrash_test.go)", "serves_properties": ["C04","C06","C08","C09","C10","C15","C19"], "kind_free_text": "sequential component simulations of real wasp objects against small reference models"},
-  {"name": "E1c simbroker under controlled goroutine scheduling", "path": "/verif/h/world_test.go (ctl*, quiesce), /verif/instr", "serves_properties": ["C07","C20"], "kind_free_text": "the E1 world on the statement-instrumented build: every broker goroutine parks at each statement (a durable block for synctest), the driver releases one at a time from its PRNG with a run budget; same-turn client requests; deterministic and replayable. C20/e1 instead uses seeded runtime.Gosched preemption under the race detector (statistical, replay by retry)"},
+  {"name": "E1c simbroker under controlled goroutine scheduling", "path": "/verif/h/world_test.go (ctl*, quiesce), /verif/instr", "serves_properties": ["C03","C05","C07","C11","C12","C13","C14","C20"], "kind_free_text": "the E1 world on the statement-instrumented build: every broker goroutine parks at each statement (a durable block for synctest), the driver releases one at a time from its PRNG with a run budget; same-turn client requests; deterministic and replayable. C20/e1 instead uses seeded runtime.Gosched preemption under the race detector (statistical, replay by retry)"},
   {"name": "E3 lockstep", "path": "/verif/h (lockstep_*_test.go), /verif/instr", "serves_properties": ["C20","C03","C04","C06","C08","C09","C19"], "kind_free_text": "PRNG-scheduled tasks released one at a time at instrumented yield points, race detector as oracle"},
  ],
  "checks": [], "not_applicable": [],
